@@ -1,5 +1,9 @@
 """C19 tie: run the REAL pipeline stages in a child interpreter under strace, parse the
 log into the operation alphabet of coq/Model/FsModel.v, and snapshot directories.
+The alphabet has the effects (OpenR/OpenW/Create/Mkdir/Unlink/Rmdir/Rename), the listing of
+a directory (ListDir) and every other OBSERVATION of the file system (`Stat p answer`: stat,
+lstat, newfstatat, statx, access, faccessat, readlink; opening a directory; every call that
+failed with an errno that tells whether the path exists) -- see to_ops.
 
 Parent side:   run_jobs(jobs, workdir) -> list of per-run records (ops, snapshots, results)
 Child side:    python -m harness.fstrace <jobs.json>   (started under strace by run_jobs)
